@@ -66,6 +66,28 @@ def _selfcheck_id():
 _selfcheck_id()
 
 
+def node_key(m, loc):
+    """what a tree node's location *is* (attributes, not the spelling of its identifier): the location id and,
+    for a block, (sheet, row); a block without sheet name and one on a sheet called Sheet1 are the same node"""
+    cl = c16.canon_location(m, loc)
+    if cl[1] is None:
+        return [cl[0], None]
+    return [cl[0], [cl[1][0] or "Sheet1", cl[1][1]]]
+
+
+def sort_forest(forest):
+    """the statement fixes a forest, not an order among siblings or roots"""
+    import json
+
+    def norm(n):
+        if "leaf" in n or not isinstance(n.get("children"), list):
+            return n
+        kids = sorted((norm(c) for c in n["children"]), key=lambda x: json.dumps(x, sort_keys=True))
+        return {"key": n["key"], "children": kids}
+
+    return sorted((norm(n) for n in forest), key=lambda x: json.dumps(x, sort_keys=True))
+
+
 def canon_forest(m, roots, tables):
     idx = {id(t): i for i, t in enumerate(tables)}
 
@@ -74,10 +96,9 @@ def canon_forest(m, roots, tables):
             return {"leaf": idx.get(id(n.table), -1)}
         if depth > 200:
             return {"key": None, "children": "DEPTH-EXCEEDED"}
-        return {"key": key_of_ident(m, n.location.load_identifier),
-                "children": [node(c, depth + 1) for c in n.children]}
+        return {"key": node_key(m, n.location), "children": [node(c, depth + 1) for c in n.children]}
 
-    return [node(r, 0) for r in roots]
+    return sort_forest([node(r, 0) for r in roots])
 
 
 # ------------------------------------------------------------------------------------------------ oracles
@@ -88,7 +109,7 @@ def truth_index(case):
         for si, sh in enumerate(f["sheets"]):
             for b in sh["truth"]:
                 if b["ty"] == "TABLE":
-                    by_name[b["name"]] = (fi, si, sh["name"], b["row"])
+                    by_name[b.get("uid") or b["name"]] = (fi, si, sh["name"], b["row"], b["name"])
     return by_name
 
 
@@ -97,7 +118,7 @@ def intended(case, m, spec, anchor):
     if anchor is None:
         roots = case["roots"] if case["roots"] is not None else ["/"]
         for s, t in zip(roots, case["root_targets"]):
-            if c16.subst(s, m) == spec:
+            if c16.root_spec(case, m, s) == spec:
                 return tuple(t)
         return None
     loc, pos = anchor
@@ -143,12 +164,13 @@ def oracle_origins(case, m, r, out):
     for o in r.canon["out"]:
         if o["ty"] != "TABLE":
             continue
-        if o["name"] not in truth:
+        tid = o.get("uid") if o.get("uid") in truth else o["name"]
+        if tid not in truth:
             out.fail("a table was yielded that no generated file contains", case, o, None, key="unknown_table")
             return
-        fi, si, sname, row = truth[o["name"]]
-        exp = {"loc": m.file_id[fi], "sheet": sname, "row": row}
-        got = {"loc": o["loc"], "sheet": o["sheet"], "row": o["row"]}
+        fi, si, sname, row, tname = truth[tid]
+        exp = {"loc": m.file_id[fi], "sheet": sname, "row": row, "name": tname}
+        got = {"loc": o["loc"], "sheet": o["sheet"], "row": o["row"], "name": o["name"]}
         if got != exp:
             out.fail("table origin (file, sheet, row) differs from where the generator wrote the table",
                      case, dict(got, table=o["name"]), exp,
@@ -314,16 +336,20 @@ def gen_cases(tier, seed, search=False):
     rungs = [1025, 4097, 8193] if not thorough else [63, 64, 129, 257, 1000, 1023, 1024, 1025, 2049, 4095, 4096,
                                                       4097, 8191, 8192, 8193, 70001]
     for ri, n in enumerate(rungs):
-        crng = make_rng(seed, f"C18:tall:{n}")
         kind = ["csv", "xlsx", "csv"][ri % 3]
-        case = c16.build_case(crng, 2, {(0, 1)}, folders=[""], kinds=[kind, "csv"], root_folder=crng.random() < 0.5,
-                              roots_mode="file", start_pattern=None, tracker="collecting", allow_include=True,
-                              mem=False, rich=True, sheet_pattern=None)
+        for attempt in range(50):
+            crng = make_rng(seed, f"C18:tall:{n}:{attempt}")
+            case = c16.build_case(crng, 2, {(0, 1)}, folders=[""], kinds=[kind, "csv"],
+                                  root_folder=crng.random() < 0.5, roots_mode="file", start_pattern=None,
+                                  tracker="collecting", allow_include=True, mem=False, rich=True,
+                                  sheet_pattern=None)
+            if tall_ok(case):
+                break
         case["gen"] = {"tall": n}
         case["tall"] = n
         yield idx, tall(case, crng)
         idx += 1
-    for k in range(400 if (thorough or search) else 40):
+    for k in range(400 if (thorough or search) else 30):
         crng = make_rng(seed, f"C18:a:{k}")
         n = crng.choice([3, 4, 5])
         es = {(0, j) for j in range(1, n)} | {(i, j) for i in range(1, n) for j in range(n) if crng.random() < 0.15}
@@ -335,7 +361,7 @@ def gen_cases(tier, seed, search=False):
         case["gen"] = {"aligned": True}
         yield idx, case
         idx += 1
-    n_rand = 3500 if (thorough or search) else 330
+    n_rand = 3500 if (thorough or search) else 270
     for k in range(n_rand):
         crng = make_rng(seed, f"C18:r:{k}")
         case = c16.random_case(crng, xlsx_share=0.4)
@@ -369,7 +395,7 @@ def shift_columns(crng, case):
 def gen_two_loads(tier, seed, search=False):
     """one tree, two consecutive loads in one process: files 0 and 1 both include file 2 (from different rows);
     the first load starts at file 0, the second at file 1, so the shared file is reached by another route"""
-    for k in range(400 if (tier == "thorough" or search) else 40):
+    for k in range(400 if (tier == "thorough" or search) else 30):
         crng = make_rng(seed, f"C18:t:{k}")
         n = crng.choice([3, 3, 4, 5])
         es = {(0, 2), (1, 2)} | {(i, j) for i in range(n) for j in range(2, n) if crng.random() < 0.2}
@@ -388,7 +414,7 @@ def gen_shared_dict(tier, seed, search=False):
     """2-3 consecutive loads over different input sets that are handed the SAME additional_protocol_loaders dict
     object; the loads differ in root_folder (set / unset / another folder), file-name pattern, sheet-name pattern
     and CSV separator"""
-    for k in range(300 if (tier == "thorough" or search) else 30):
+    for k in range(300 if (tier == "thorough" or search) else 24):
         crng = make_rng(seed, f"C18:h:{k}")
         calls = []
         for j in range(crng.choice([2, 2, 3])):
@@ -413,7 +439,8 @@ def shared_dict_loads(calls, base, out, hist_input, want_model, order):
                    sorted(map(str, shared.protocols.keys())), ["mem"], key="caller_dict_modified")
         for f in o.failures:
             out.fail(f"load {j + 1} of {len(calls)} sharing one protocol dict: " + f["what"],
-                     dict(hist_input, failing_call=j), f["observed"], f["expected"], key="history:" + f["key"])
+                     dict(hist_input, failing_call=j), f["observed"], f["expected"],
+                     key=f["key"] if f["key"] == c16.F4_KEY else "history:" + f["key"])
         out.mismatches += [dict(mm, input=dict(hist_input, failing_call=j)) for mm in o.mismatches]
         if res is None or any(f["key"] != "caller_dict_modified" for f in o.failures):
             break
@@ -422,16 +449,21 @@ def shared_dict_loads(calls, base, out, hist_input, want_model, order):
 
 
 def tall(case, crng):
-    """the size ladder: the first sheet of the first file starts after 1025 / 4097 / 8193 … empty rows"""
+    """the size ladder: the blocks of the first sheet of the first file come after 1025 / 4097 / 8193 … empty rows
+    (the generator is asked again until that sheet does not open with a metadata block or a comment row, which
+    are only that at the very top)"""
     n = case["tall"]
     sh = case["files"][0]["sheets"][0]
     blank = [None] if case["files"][0]["kind"] == "xlsx" else [""]
     sh["rows"] = [list(blank) for _ in range(n)] + sh["rows"]
     for b in sh["truth"]:
         b["row"] += n
-    if sh["truth"] and sh["truth"][0]["ty"] == "METADATA":
-        sh["truth"][0]["ty"] = "BLANK"       # key rows that are not at the top of the sheet are no metadata block
     return case
+
+
+def tall_ok(case):
+    t = case["files"][0]["sheets"][0]["truth"]
+    return bool(t) and not (t[0]["row"] == 0 and t[0]["ty"] in ("METADATA", "BLANK"))
 
 
 def two_loads(first, second, root, out, want_model, order):
@@ -490,7 +522,7 @@ def env_step(m, env):
     """the environment after the load, before anything is inspected: every file modified later, or all gone"""
     import os
     if env == "touch":
-        for p in m.ident_at_load:
+        for p in [m.path_of[fid] for fid in m.file_id if m.kind[fid] not in ("mem",)]:
             st = os.stat(p)
             os.utime(p, (st.st_atime + 4000, st.st_mtime + 4000))
     elif env == "delete":
@@ -509,6 +541,60 @@ def capture_streams(case, m):
             with open(m.path_of[fid], "rb") as fh:
                 res.append(("xlsx", io.BytesIO(fh.read())))
     return res
+
+
+def oracle_direct_readers(case, m, out):
+    """the direct-reader route: read_csv(path, origin="x") / read_excel(path, origin="x") — the documented
+    `origin: str` names the input; every table's load history is the one step ("x", <root>) and the tables of
+    several files make one tree per file"""
+    from pdtable import read_csv, read_excel, BlockType
+    from pdtable.io.load import make_location_trees
+    import warnings
+    per_file = []
+    with warnings.catch_warnings():
+        warnings.simplefilter("ignore")
+        for f, fid in zip(case["files"], m.file_id):
+            if f["kind"] not in ("csv", "xlsx"):
+                continue
+            name = "input " + f["path"]
+            try:
+                if f["kind"] == "csv":
+                    blocks = list(read_csv(m.path_of[fid], sep=case.get("sep", c16.SEP), origin=name,
+                                           issue_tracker=c16.make_collector()))
+                else:
+                    blocks = list(read_excel(m.path_of[fid], origin=name, issue_tracker=c16.make_collector()))
+                ts = [b for bt, b in blocks if bt == BlockType.TABLE]
+                for t in ts:
+                    il = t.metadata.origin.input_location
+                    h = [(li.specification, li.source) for li in il.load_specification.load_history()]
+                    if h != [(name, None)] or str(il.file.local_path) != m.path_of[fid]:
+                        out.fail("a table read with origin=<text> does not carry the one-step history "
+                                 "(<text>, <root>) of its file", dict(case, route="direct"), repr(h), [name, None],
+                                 key="origin_str_not_a_load_item")
+                        return
+                per_file.append(ts)
+            except Exception as e:  # noqa
+                out.fail("reading a file with origin=<text> and walking its tables' load history raised",
+                         dict(case, route="direct"), repr(e), None, key="origin_str_not_a_load_item")
+                return
+    tables = [t for ts in per_file for t in ts]
+    try:
+        roots = make_location_trees(tables)
+    except Exception as e:  # noqa
+        out.fail("make_location_trees raised on tables read with origin=<text>", dict(case, route="direct"),
+                 repr(e), None, key="origin_str_not_a_load_item")
+        return
+    leaves = {}
+    for rt in roots:
+        for c in rt.children:
+            if c.table is not None:
+                leaves[id(c.table)] = rt
+    want_roots = sum(1 for ts in per_file if ts)
+    if len(roots) != want_roots or any(len({id(leaves.get(id(t))) for t in ts}) != 1 for ts in per_file if ts) \
+            or any(id(t) not in leaves for t in tables):
+        out.fail("tables read from several files with origin=<text> do not make one tree per file",
+                 dict(case, route="direct"), {"roots": len(roots)}, {"roots": want_roots},
+                 key="direct:one_tree_per_file")
 
 
 def oracle_streams(case, streams, out):
@@ -573,6 +659,8 @@ def one_case(case, root, out, want_model, order, m=None, shared=None, audit_pref
     nodes = c16.observe_world(case, m)
     table = c16.resolve_table(case, m, c16.make_mem({}, [])[1]) if want_model else None
     streams = capture_streams(case, m) if case.get("streams") else None
+    if case.get("streams"):
+        oracle_direct_readers(case, m, out)
     env = case.get("after_load")
     r = c16.run_impl(case, m, after_load=(lambda: env_step(m, env)) if env else None, shared=shared,
                      audit_prefix=audit_prefix)
@@ -582,12 +670,14 @@ def one_case(case, root, out, want_model, order, m=None, shared=None, audit_pref
                  (f" after the files were {env}d" if env else ""), case, r.canon_error, None,
                  key="origin:inspection_raised")
         return None
-    for o in impl["out"]:
-        want_ident = m.ident_at_load.get(m.path_of.get(o["loc"])) if o.get("ident") else None
-        if want_ident is not None and o["ident"] != want_ident:
-            out.fail("a block's file identifier is not the one the file had when it was loaded", case,
-                     o["ident"], want_ident, key="origin:identifier_not_frozen")
-            return None
+    if env:
+        # "frozen": what the identifiers read right after the load is what they read after the files changed
+        now = c16._block_idents(r.blocks)
+        for before, after in zip(r.idents_after_load, now):
+            if before != after:
+                out.fail("a block's load identifier is not the one it had when it was loaded", case,
+                         after, before, key="origin:identifier_not_frozen")
+                return None
     if streams is not None:
         oracle_streams(case, streams, out)
     if impl["status"] == "runaway":
@@ -601,7 +691,8 @@ def one_case(case, root, out, want_model, order, m=None, shared=None, audit_pref
         c16.oracle(case, m, impl, o16)
         for f in o16.failures[:1]:
             out.fail("the input set is not loaded as it should be, so its tables get no origin: " + f["what"],
-                     case, f["observed"], f["expected"], key="load:" + f["key"])
+                     case, f["observed"], f["expected"],
+                     key=f["key"] if f["key"] == c16.F4_KEY else "load:" + f["key"])
     tables = [b for bt, b in r.blocks if bt == BlockType.TABLE]
     try:
         roots = make_location_trees(tables)
@@ -653,7 +744,7 @@ def run(tier, seed, model_ok, translator, search=False):
     ops, pend = [], []
     try:
         order = c16.probe_order(scratch)
-        out.count("worklist_discipline:" + order)
+        out.count("worklist_discipline:" + "/".join(order[k] for k in ("pop", "children", "lines")))
         for idx, case in gen_cases(tier, seed, search):
             case["seed"], case["index"] = seed, idx
             res = one_case(case, scratch / str(idx), out, model_ok and not search, order)
@@ -762,7 +853,7 @@ def run(tier, seed, model_ok, translator, search=False):
                 for what, want, forest in checks:
                     if isinstance(forest, dict) and "error" in forest:
                         out.mismatch("driver refused the location_trees op", case, want, forest)
-                    elif forest != want:
+                    elif sort_forest(forest) != want:
                         out.mismatch(what, case, want, forest)
     finally:
         shutil.rmtree(scratch, ignore_errors=True)
